@@ -181,6 +181,72 @@ def _stable_root(b, op):
     return None
 
 
+def _redefined_between(b, roots, start, at):
+    """One of the locals `roots` can be assigned again on a path from block `start` to block `at` (a loop that
+    re-binds the `let`): what was established about it at `start` would be stale at `at`."""
+    for r in roots:
+        for db, _, _, _ in b.whole_defs(r):
+            if db == at:
+                continue
+            if (db == start or db in b.reachable_from(start, removed_nodes=[at])) and at in b.reachable_from(db):
+                return True
+    return False
+
+
+def _split_of_indexed_prefix(b, bi, t):
+    """`x[..e].split_at(min(e, _))` (or `.split_at(e)`): the receiver is a prefix of length exactly `e`, taken by
+    an index expression whose own bound check already passed, and the split point is at most `e`."""
+    recv = t["args"][0]
+    cur = recv
+    src = None
+    for _ in range(6):
+        if not is_place(cur) or cur["p"]["pr"]:
+            return None
+        ds = b.whole_defs(cur["p"]["l"])
+        if len(ds) != 1:
+            return None
+        db, _, kind, payload = ds[0]
+        if kind == "call":
+            src = (db, payload)
+            break
+        rv = payload["rv"]
+        if rv["k"] == "use" and is_place(rv["op"]):
+            cur = rv["op"]
+        elif rv["k"] in ("ref", "copyforderef") and [e_["k"] for e_ in rv["p"]["pr"]] in (["deref"], []):
+            cur = {"k": "copy", "p": {"l": rv["p"]["l"], "pr": []}}
+        else:
+            return None
+    if src is None:
+        return None
+    ib, it = src
+    f = fn_of(it) or {}
+    if not ((kind_of_call(f) or "").startswith("call:index:std::ops::RangeTo<") and len(it["args"]) == 2):
+        return None
+    rt = trace(b, it["args"][1])
+    if not (rt.origin and rt.origin[0] == "agg" and rt.origin[1]["rv"]["ops"]):
+        return None
+    e_root = _stable_root(b, rt.origin[1]["rv"]["ops"][0])
+    if e_root is None:
+        return None
+    # the split point: e itself, or min(e, _)
+    pt = trace(b, t["args"][1])
+    cands = []
+    mb = None
+    if pt.origin and pt.origin[0] == "call" and (fn_of(pt.origin[2]) or {}).get("def") in ("std::cmp::min", "std::cmp::Ord::min") and all(s_[0] == "use" for s_ in pt.steps):
+        cands = [_stable_root(b, a_) for a_ in pt.origin[2]["args"]]
+        mb = pt.origin[1]
+    else:
+        cands = [_stable_root(b, t["args"][1])]
+        mb = bi
+    if e_root not in cands:
+        return None
+    # `e` is not re-bound between taking the minimum, indexing and splitting
+    first = mb if mb is not None else ib
+    if _redefined_between(b, (e_root,), first, bi) or _redefined_between(b, (e_root,), ib, bi):
+        return None
+    return f"split point is at most `{b.local_name(e_root) or e_root}`, the length of the indexed prefix it splits"
+
+
 def _ordered_by_guard(b, bi, a, c):
     """`a - c` cannot underflow because a comparison of the same two (immutable) values, taken on an edge that
     dominates the subtraction, established a >= c (`if a <= c { return }`, `if c < a { .. a - c .. }`, ...)."""
@@ -211,7 +277,7 @@ def _ordered_by_guard(b, bi, a, c):
         elif zero:
             edges.append((sb, 0, zero[0]))  # `a <= c` / `a < c` false: a > c / a >= c
         for e in edges:
-            if b.edge_dominates(e[0], e[1], e[2], bi):
+            if b.edge_dominates(e[0], e[1], e[2], bi) and not _redefined_between(b, (ra, rc), e[2], bi):
                 return f"guarded subtraction: the edge at line {blk['term'].get('line')} establishes `{b.local_name(ra) or ra}` >= `{b.local_name(rc) or rc}` for the same immutable values"
     return None
 
@@ -261,6 +327,9 @@ def local_proof(b, bi):
             root = _slice_root(b, t["args"][0])
             if _min_with_len_of(b, t["args"][1], root, bi):
                 return "split point is min(len(slice), ..) of the same slice"
+            why = _split_of_indexed_prefix(b, bi, t)
+            if why:
+                return why
         if k.startswith("call:index:std::ops::RangeTo<") or k.startswith("call:index:std::ops::RangeFrom<"):
             root = _slice_root(b, t["args"][0])
             tr = trace(b, t["args"][1])
@@ -674,9 +743,18 @@ def r04_5(ctx):
                 if hinted:
                     per_file.setdefault(b.file, []).append((b, bb, f.get("name")))
         want = rv.get(crate.kind, {})
+        spare = {g: [e.get("count", 0) - len(per_file.get(g, [])), {seg.split(":")[0].strip() for seg in e.get("why", "").split(" | ")}] for g, e in want.items()}
         for fl, sites_ in sorted(per_file.items()):
             allowed = want.get(fl, {}).get("count", 0)
-            ok = len(sites_) <= allowed
+            need = max(0, len(sites_) - allowed)
+            for x, _, _ in sites_:
+                # a site that moved to another file with its function
+                for g, ent in spare.items():
+                    if need and g != fl and ent[0] > 0 and x.name in ent[1]:
+                        ent[0] -= 1
+                        need -= 1
+                        break
+            ok = need == 0
             b0, bb0, nm = sites_[0]
             ctx.ob(f"{crate.kind}:{fl}:hint-sized-allocation", ok, site(b0, bb0),
                    f"{len(sites_)} site(s) sized by a size_hint, reviewed {allowed}: {want.get(fl, {}).get('why', '')[:240]}" if ok else
